@@ -13,17 +13,20 @@ RULE = ("Metamorphic check. Hypothesis scenarios in default / bounded / scaled /
         "regularised configurations, with x0 placements that force the clipping/projection code to run, passed as float, "
         "integer-valued or read-only arrays (flags.writeable=False) and a user_params dict. Each case is run twice in one "
         "process with different np.random.seed values (and an unrelated solve in between); unless an option documented as "
-        "random is on (random initial directions, reduced initial set/growing, momentum extra steps, npt growth on soft "
-        "restart, restarts at all) the two evaluation traces and results must be bit-identical. The inputs-untouched clause "
+        "random is on (random initial directions, reduced initial set/growing, momentum extra steps, npt growth on "
+        "restart) the two evaluation traces and results must be bit-identical. The inputs-untouched clause "
         "is checked on every case. Non-trivial = x0 needed projection/clipping, or bounds were given. Distinct = SHA-1.")
 ASSUMPTIONS = ["options documented as using random directions are excluded from the same-trace clause only",
                "read-only input arrays turn any in-place write into an exception, which is reported as a violation",
-               "comparison of results covers x, resid, obj, jacobian, nf, nx, nruns, flag, msg, evaluation numbers"]
+               "comparison of results covers x, resid, obj, jacobian, nf, nx, nruns, flag, msg, evaluation numbers and the diagnostic "
+               "table cell by cell"]
 
 PROF = sc.make_prof(fams=["lin", "sinlin", "rosen", "hashed", "boxdomain"], noise=False, diag=0.2, reg=0.08, zero_resid=0.05,
                     maxfuns=["npt", "npt+1", 10, 30, 60])
+# options documented as drawing random directions; plain soft/hard restarts (geometry steps, re-initialisation with coordinate
+# directions) are deterministic and are compared
 RANDOM_KEYS = ("init.random_initial_directions", "growing.ndirs_initial", "regression.momentum_extra_steps",
-               "restarts.use_restarts", "growing.perturb_trust_region_step", "growing.num_new_dirns_each_iter")
+               "restarts.increase_npt", "growing.perturb_trust_region_step", "growing.num_new_dirns_each_iter")
 
 
 @st.composite
@@ -104,13 +107,28 @@ def same_result(a, b):
             return "%s differs: %r vs %r" % (name, getattr(a, name), getattr(b, name))
     if not (a.obj == b.obj or (a.obj != a.obj and b.obj != b.obj)):
         return "obj differs: %r vs %r" % (a.obj, b.obj)
+    da, db = a.diagnostic_info, b.diagnostic_info
+    if (da is None) != (db is None):
+        return "diagnostic table present in one result only"
+    if da is not None:
+        if list(da.columns) != list(db.columns) or len(da) != len(db):
+            return "diagnostic tables differ in shape: %r vs %r" % (da.shape, db.shape)
+        for col in da.columns:
+            va, vb = list(da[col].values), list(db[col].values)
+            for i in range(len(va)):
+                x, y = va[i], vb[i]
+                same = (x is None and y is None) or (isinstance(x, float) and isinstance(y, float) and x != x and y != y) or \
+                    (np.array_equal(np.asarray(x, dtype=float), np.asarray(y, dtype=float), equal_nan=True)
+                     if not isinstance(x, str) and x is not None and y is not None and not isinstance(y, str) else x == y)
+                if not same:
+                    return "diagnostic table differs: column %s row %d: %r vs %r" % (col, i, x, y)
     return None
 
 
 def run(case):
     res = CaseResult()
     up = case["up"]
-    randomised = any(k in up for k in RANDOM_KEYS) or case.get("noise_flag") or up.get("restarts.increase_npt")
+    randomised = any(up.get(k) for k in RANDOM_KEYS)
     o1, h1 = one_run(case, case["seeds"][0])
     untouched(res, h1)
     if isinstance(o1.exc, ValueError) and "read-only" in str(o1.exc):
